@@ -50,8 +50,11 @@ class Static(BaseComponent):
 
     @handler('request', priority=0.9)
     def _on_request(self, event, request, response):
-        if self.path is not None and not request.path.startswith(self.path):
-            return None
+        if self.path is not None:
+            # match whole path segments only: '/static' must not claim '/static../x' or '/staticfoo'
+            prefix = self.path.rstrip('/')
+            if request.path != prefix and not request.path.startswith(prefix + '/'):
+                return None
 
         path = request.path
 
